@@ -20,6 +20,47 @@ where
 // ------------------------------------------------------------------------------------------------ monotone
 
 /// every stream of length <= maxlen over 6 items (+ a merge op): the estimate never decreases
+/// one monotone stream on registers of type I
+fn monotone_one<I>(p: SetSketchParams, seq: &[usize]) -> Option<String>
+where
+    I: num::Integer + num::Bounded + num::ToPrimitive + num::FromPrimitive + Copy + Clone + Send + Sync + std::fmt::Debug,
+{
+    let mle = MleJaccard::new(p.get_b(), p.get_m(), p.get_a());
+    let mut sk = new_ss::<I>(p);
+    let mut other = new_ss::<I>(p);
+    for x in 500u64..530 {
+        other.sketch(&x).unwrap();
+    }
+    let mut other2 = new_ss::<I>(p);
+    for x in 600u64..603 {
+        other2.sketch(&x).unwrap();
+    }
+    let mut prev = sk.get_cardinal_stats().0;
+    for (i, s) in seq.iter().enumerate() {
+        match s {
+            0..=5 => sk.sketch(&(*s as u64 + 1)).unwrap(),
+            6 => {
+                for x in 100u64..112 {
+                    sk.sketch(&x).unwrap();
+                }
+            }
+            7 => sk.merge(&other).unwrap(),
+            _ => sk.merge(&other2).unwrap(),
+        }
+        let e = sk.get_cardinal_stats().0;
+        if !(e >= prev) {
+            return Some(format!("estimate went from {} to {} at step {}", prev, e, i));
+        }
+        prev = e;
+        // the parallel estimator on the raw registers agrees up to rounding
+        let pe = mle.get_cardinal_estimate(sk.get_signature());
+        if !(((pe - e) / e).abs() <= 64. * f64::EPSILON || (pe == e)) {
+            return Some(format!("at step {} the sketcher estimates {} but the parallel estimator on the same registers {}", i, e, pe));
+        }
+    }
+    None
+}
+
 fn monotone(ctx: &Ctx, maxlen: usize) -> (u64, u64) {
     let params: Vec<(&str, SetSketchParams)> = vec![
         ("(1.001,1,20,65534)", SetSketchParams::new(1.001, 1, 20., 65534)),
@@ -33,11 +74,14 @@ fn monotone(ctx: &Ctx, maxlen: usize) -> (u64, u64) {
         ("(2,4,2^44,62)", SetSketchParams::new(2.0, 4, 2f64.powi(44), 62)),
         ("(1.2,8,1e14,200)", SetSketchParams::new(1.2, 8, 1e14, 200)),
         ("(1.001,4,1e-4,65534)", SetSketchParams::new(1.001, 4, 1e-4, 65534)),
+        // u32 registers above 2^31 (b next to 1, a large rate): no saturation, but the register no longer fits an i32
+        ("u32 registers (1+1e-8,4,1e12,2^32-2)", SetSketchParams::new(1.0 + 1e-8, 4, 1e12, 4294967294)),
     ];
     let nsym = 9usize; // 6 items, a burst, a merge with a 30-item sketch, a merge with a 3-item sketch
     let mut streams = 0u64;
     let mut steps = 0u64;
     for (pname, p) in params {
+        let wide = pname.starts_with("u32");
         let total: u64 = (nsym as u64).pow(maxlen as u32);
         let res: Vec<(u64, Option<(Vec<usize>, String)>)> = (0..total)
             .into_par_iter()
@@ -50,42 +94,7 @@ fn monotone(ctx: &Ctx, maxlen: usize) -> (u64, u64) {
                         s
                     })
                     .collect();
-                let r = guarded_mut(|| {
-                    let mle = MleJaccard::new(p.get_b(), p.get_m(), p.get_a());
-                    let mut sk = new_ss::<u16>(p);
-                    let mut other = new_ss::<u16>(p);
-                    for x in 500u64..530 {
-                        other.sketch(&x).unwrap();
-                    }
-                    let mut other2 = new_ss::<u16>(p);
-                    for x in 600u64..603 {
-                        other2.sketch(&x).unwrap();
-                    }
-                    let mut prev = sk.get_cardinal_stats().0;
-                    for (i, s) in seq.iter().enumerate() {
-                        match s {
-                            0..=5 => sk.sketch(&(*s as u64 + 1)).unwrap(),
-                            6 => {
-                                for x in 100u64..112 {
-                                    sk.sketch(&x).unwrap();
-                                }
-                            }
-                            7 => sk.merge(&other).unwrap(),
-                            _ => sk.merge(&other2).unwrap(),
-                        }
-                        let e = sk.get_cardinal_stats().0;
-                        if !(e >= prev) {
-                            return Some(format!("estimate went from {} to {} at step {}", prev, e, i));
-                        }
-                        prev = e;
-                        // the parallel estimator on the raw registers agrees up to rounding
-                        let pe = mle.get_cardinal_estimate(sk.get_signature());
-                        if !(((pe - e) / e).abs() <= 64. * f64::EPSILON || (pe == e)) {
-                            return Some(format!("at step {} the sketcher estimates {} but the parallel estimator on the same registers {}", i, e, pe));
-                        }
-                    }
-                    None
-                });
+                let r = guarded_mut(|| if wide { monotone_one::<u32>(p, &seq) } else { monotone_one::<u16>(p, &seq) });
                 match r {
                     Ok(None) => (maxlen as u64, None),
                     Ok(Some(w)) => (maxlen as u64, Some((seq, w))),
